@@ -223,8 +223,11 @@ another way* (C07: command strings, also stopping early), *curved content under 
 above 2^16; C02/C07: deltas above 2^31; C19: odd integers above 2^52; C13: scaled coordinates above 2^31),
 *records at the limits of a length field* (C03/C17: 2^15 and 65534 bytes; C08: more than 8190 points),
 *exact ties of a rounding rule* (C04), *distances exactly at a tolerance* (C01), *angles next to and on the negative side of
-the special ones* (C09, C10, C06), *absolute magnitudes far from 1* (C15) and *caller-owned containers that are used a
-second time* (C16).
+the special ones* (C09, C10, C06), *absolute magnitudes far from 1* (C15), *caller-owned containers that are used a
+second time* (C16), *caches whose entries were released while the container was kept* (C09: GeometryInfo::clear() then
+reuse of the map), *string lengths of both parities and beyond the length of the preceding record* (C17: cell names of
+2..100 characters) and *factors below one where only enlargements were enumerated* (C09/C06: magnification 0.5; found
+by a self-made change, not by a seed).
 
 **(d) Benign changes: looking for false alarms.**  The reverse experiment: 20 fresh sub-agents (property
 text and a scratch worktree only, `tools/benign_prompt.py`) each produced three realistic maintenance
